@@ -199,6 +199,31 @@ class SourceFile:
         body = self.src[self.toks[s].start:self.toks[e].end]
         return f"fn {name}({params.strip()}) {between} {body}", self.toks[b0].start, self.toks[e].end
 
+    def arm_as_fn(self, it: Item, head: str, name: str, sig: str):
+        """the match arm of fn item `it` whose pattern starts with the token sequence `head` (exactly one such arm
+        with a block body), re-headed as `fn <name><sig> <body>`; `sig` = `(params) -> Ret` is given by the
+        contract (the arm's free variables and pattern bindings become parameters).
+        Returns (text, char_start, char_end)."""
+        ht = [t.text for t in lex(head)]
+        lo, hi = it.body_open, self.toks[it.body_open].mate
+        hits = []
+        for k in range(lo + 1, hi - len(ht)):
+            if [t.text for t in self.toks[k:k + len(ht)]] == ht and self.toks[k - 1].text in ("{", ",", "}", "|"):
+                # the `=>` of this arm at the pattern's depth
+                d = self.toks[k].depth
+                j = k
+                while j < hi and not (self.toks[j].text == "=>" and self.toks[j].depth == d):
+                    if self.toks[j].kind == "open":
+                        j = self.toks[j].mate
+                    j += 1
+                if j < hi and self.toks[j + 1].text == "{":
+                    hits.append((k, j + 1, self.toks[j + 1].mate))
+        if len(hits) != 1:
+            raise LostAnchor(f"arm `{head}`: {len(hits)} matching arms with a block body")
+        k, bo, bc = hits[0]
+        body = self.src[self.toks[bo].start:self.toks[bc].end]
+        return f"fn {name}{sig} {body}", self.toks[k].start, self.toks[bc].end
+
     def text(self, it: Item) -> str:
         return self.src[self.toks[it.t0].start:self.toks[it.t1].end]
 
